@@ -1,7 +1,7 @@
 """Which units / lemmas / Kani harnesses decide which property."""
 import importlib
 
-UNIT_MODULES = ['cbc', 'pcbc', 'ige', 'cfb', 'cfb8', 'ofb', 'belt', 'ctr', 'lemmas']
+UNIT_MODULES = ['cbc', 'pcbc', 'ige', 'cfb', 'cfb8', 'ofb', 'belt', 'ctr', 'lemmas', 'cts']
 
 
 def load_units(names=None):
@@ -18,6 +18,7 @@ PROP_UNITS = {
     'C02': ['cbc', 'pcbc', 'ige'],
     'C03': ['cfb', 'cfb8', 'ofb'],
     'C04': ['ctr'],
+    'C05': ['cts'],
     'C06': ['belt'],
     'C07': ['lemmas', 'cbc', 'pcbc', 'ige', 'cfb', 'cfb8', 'ofb', 'ctr', 'belt'],
     'C08': ['lemmas', 'cfb', 'cfb8', 'ofb', 'ctr', 'belt'],
@@ -56,6 +57,7 @@ _MODE_PROPS = {
     'cfb': ['C03', 'C01', 'C07', 'C12', 'C14'], 'cfb8': ['C03', 'C01', 'C07', 'C12', 'C08', 'C09'], 'ofb': ['C03', 'C01', 'C07', 'C12', 'C14', 'C09'],
     'cfbbuf': ['C03', 'C08', 'C13', 'C14', 'C09', 'C01'],
     'ctr': ['C04', 'C01', 'C07', 'C08', 'C10', 'C12', 'C14'],
+    'cts': ['C05', 'C01', 'C12', 'C13', 'C14'],
     'belt': ['C06', 'C01', 'C07', 'C08', 'C10', 'C12'],
 }
 
